@@ -156,7 +156,7 @@ class Net:
                 if isinstance(fl, int) and fl > 256:
                     fl = int(str(fl))                    # a fresh int object per packet (equal, not identical)
                 p = self.make_packet(fl, a["size"], a.get("pid", n), src=a.get("src", src),
-                                     payload=a.get("payload"))
+                                     payload=bytes(a["payload_len"]) if "payload_len" in a else a.get("payload"))
                 if a.get("age"):
                     p.time = env.now - a["age"]          # created upstream some time ago
                     self.pk.snap[self.pk.uid[id(p)]] = tuple(getattr(p, f) for f in FIELDS)
